@@ -170,7 +170,12 @@ def check(plan, ctx):
         ctx.excl("int64 beyond 2**53 widened to float")
         return
     exotic = bool(set(present) & {"bytes", "tdelta", "obj"})
+    ids_before = [id(x) for x in vals]
     v = ctx.call("Vector(...)", lambda: di.Vector(seq, dtype) if dtype is not None else di.Vector(seq))
+    if plan["container"] == "list" and (len(vals) != n or [id(x) for x in vals] != ids_before):
+        # the caller's own list: building a vector from it is no licence to rewrite it (a second vector built from the
+        # same list, perhaps with another dtype, would then see other values)
+        raise Violation("the constructor changed the list it was given", changed=[j for j, (a, b) in enumerate(zip(ids_before, map(id, vals))) if a != b][:5])
     if np.asarray(v).ndim != 1 or len(v) != n:
         if "obj" in present:
             ctx.reject("NumPy shape inference on tuple cells")
